@@ -14,7 +14,15 @@ from vlib import core, diffprog
 OPTSETS = [['-S', '-o', 'OUT'], ['-E', '-o', 'OUT'], ['-c', '-o', 'OUT'], ['-S', '-fPIC', '-o', 'OUT'], ['-S', '-fno-common', '-o', 'OUT'],
            ['-S', '-fcommon', '-DX=1', '-UY', '-o', 'OUT'], ['-E', '-DFOO=bar', '-DN=3', '-UFOO', '-o', 'OUT'], ['-M', '-o', 'OUT'], ['-MD', '-MF', 'OUT', '-S', '-o', 'OUT2'],
            ['-M', '-MP', '-MT', 'tgt', '-o', 'OUT'], ['-S', '-Iinclude', '-include', 'include/stddef.h', '-o', 'OUT'], ['-S', '-o', '-'], ['-E'], ['-c', '-fPIC', '-o', 'OUT'],
-           ['-S', '-idirafter', 'test', '-o', 'OUT'], ['-E', '-x', 'c', '-o', 'OUT']]
+           ['-S', '-idirafter', 'test', '-o', 'OUT'], ['-E', '-x', 'c', '-o', 'OUT'], ['-o', 'OUT'], ['-shared', '-fPIC', '-o', 'OUT']]
+
+# operands and operators for constant expressions whose evaluation inside the compiler touches what the C standard leaves open for
+# the *compiler's own* source: conversions of NaN / infinity / out-of-range values, two faults in one expression, huge shifts
+CORNER_OPERANDS = ['0.0/0.0', '-(0.0/0.0)', '1e400', '-1e400', '1e400L', '1/0', '2/0', '5%0', '18446744073709551615.0', '18446744073709551616.0', '-1.0', '-0.5',
+                   '9223372036854775807', '(-9223372036854775807-1)', '9223372036854775808.0', '-9223372036854775809.0', '4294967296.0', '1e19', '1e19f', '3', '0', '1.5f', 'y',
+                   '0x1p63', '0x1p64L', '-0x1p63', '1e-400', '4.9e-324', '(1e308*10)', '(0.0/0.0 != 0.0/0.0)']
+CORNER_CASTS = ['(unsigned long)', '(long)', '(int)', '(unsigned)', '(unsigned char)', '(_Bool)', '(float)', '(double)', '(long double)', '(short)', '', '', '-', '!', '~(long)']
+CORNER_BIN = ['*', '+', '-', '/', '%', '<<', '>>', '<', '==', '&', '|', '&&', '||', ',']
 
 
 def build_stage(src_dir, cc, dst_dir):
@@ -107,6 +115,31 @@ class C12:
             if not cs:
                 cs = [c01.CHECK.gen_case(ch, 2)]; pre = diffprog.PRELUDE
             return 'gen/g.c', diffprog.unit_source(cs, None, pre).encode()
+        if k >= 93:
+            # file-scope constant expressions built from the corner pools; most are erroneous or folded inside the compiler
+            def cexpr(d):
+                if d == 0 or ch.int(0, 2) == 0:
+                    return ch.choice(CORNER_CASTS) + '(' + ch.choice(CORNER_OPERANDS) + ')'
+                if ch.int(0, 5) == 0:
+                    return '(%s ? %s : %s)' % (cexpr(d - 1), cexpr(d - 1), cexpr(d - 1))
+                return '%s(%s %s %s)' % (ch.choice(CORNER_CASTS), cexpr(d - 1), ch.choice(CORNER_BIN), cexpr(d - 1))
+            lines = ['int y;']
+            for i in range(ch.int(1, 4)):
+                form = ch.int(0, 5)
+                e = cexpr(ch.int(0, 2))
+                if form == 0:
+                    lines.append('%s a%d = %s;' % (ch.choice(['unsigned long', 'long', 'int', 'double', 'float', '_Bool', 'long double', 'unsigned char']), i, e))
+                elif form == 1:
+                    lines.append('int arr%d[((unsigned long)(%s) >> 63) + 1];' % (i, e))
+                elif form == 2:
+                    lines.append('enum { K%d = %s };' % (i, e))
+                elif form == 3:
+                    lines.append('struct S%d { int f : ((%s) & 7) + 1; };' % (i, e))
+                elif form == 4:
+                    lines.append('int f%d(int x) { switch (x) { case %s: return 1; } return 0; }' % (i, e))
+                else:
+                    lines.append('_Static_assert((%s) || 1, "m"); long s%d = sizeof(char[(%s) ? 2 : 3]);' % (e, i, e))
+            return 'gen/k.c', ('\n'.join(lines) + '\n').encode()
         if k < 85:
             from checks import c09, c10
             txt = c09.Gen(ch, {}).program() if ch.bool() else c10.Cond(ch).program()
@@ -125,6 +158,7 @@ class C12:
             open(os.path.join(sdir, rel), 'wb').write(data)
         outs = []
         args = []
+        raw = {}
         for o in opts:
             if o in ('OUT', 'OUT2'):
                 args.append('gen/w%d_%s' % (w, o.lower())); outs.append('gen/w%d_%s' % (w, o.lower()))
@@ -141,16 +175,22 @@ class C12:
         for o in outs:
             p = os.path.join(sdir, o)
             if os.path.exists(p) and open(p, 'rb').read(4) == b'\x7fELF':
-                # the assembler records its working directory in the debug sections; the stages run in different directories
+                # the assembler records its working directory in the debug sections; the stages run in different directories.
+                # The unstripped bytes are kept as well: two runs of the same stage must agree on them too.
+                raw[o] = open(p, 'rb').read()
                 core.run(['objcopy', '-g', p], timeout=30)
             files[o] = open(p, 'rb').read() if os.path.exists(p) else None
         # default output names (no -o): x.s / x.o next to cwd
         base = os.path.splitext(os.path.basename(rel))[0]
         for ext in ('.s', '.o'):
             p = os.path.join(sdir, base + ext)
-            if not any(a in ('-o',) for a in args) and os.path.exists(p) and base.startswith(('g', 'p', 'm')) and rel.startswith('gen/'):
+            if not any(a in ('-o',) for a in args) and os.path.exists(p) and base.startswith(('g', 'p', 'm', 'k')) and rel.startswith('gen/'):
                 files[base + ext] = open(p, 'rb').read(); os.unlink(p)
-        return r.rc, r.out, r.err, files, r.timeout
+        # the linker names our temporary object file in its messages
+        err = re.sub(rb'/tmp/chibicc-[A-Za-z0-9]{6}', b'/tmp/chibicc-TMPNAM', r.err) if isinstance(r.err, bytes) else re.sub(r'/tmp/chibicc-[A-Za-z0-9]{6}', '/tmp/chibicc-TMPNAM', r.err)
+        # ... and, from the debug information, the directory the stage ran in
+        err = err.replace(os.path.realpath(sdir).encode(), b'STAGEDIR').replace(sdir.encode(), b'STAGEDIR') if isinstance(err, bytes) else err.replace(os.path.realpath(sdir), 'STAGEDIR').replace(sdir, 'STAGEDIR')
+        return r.rc, r.out, err, files, r.timeout, raw
 
     def example(self, ch, ctx):
         st = ctx.stats
@@ -189,7 +229,7 @@ class C12:
                 # determinism of stage1 itself
                 env = dict(os.environ, VERIF_PADDING='x' * ch.choice([1, 17, 1000, 4099]))
                 c = self.run_stage(s1, rel, data, opts, wrap=['setarch', 'x86_64', '-R'], env=env, w=ctx.widx)
-                if not c[4] and norm(c) != norm(a):
+                if not c[4] and (norm(c) != norm(a) or c[5] != a[5]):
                     bad = 'stage1 is not deterministic: a second run (setarch -R, different environment size) differs'
             if bad:
                 rep = {'kind': 'stages', 'rel': rel, 'input_latin1': raw.decode('latin1') if data is not None else None, 'opts': opts, 'signature': core.shash(repr(key))}
@@ -206,7 +246,7 @@ class C12:
         if a[:4] != b[:4]:
             return True, 'stage1 rc=%s stage2 rc=%s; stdout equal: %s; stderr equal: %s; files equal: %s' % (a[0], b[0], a[1] == b[1], a[2] == b[2], a[3] == b[3])
         c = self.run_stage(s1, rep['rel'], data, rep['opts'], wrap=['setarch', 'x86_64', '-R'], env=dict(os.environ, VERIF_PADDING='y' * 777))
-        if c[:4] != a[:4]:
+        if c[:4] != a[:4] or c[5] != a[5]:
             return True, 'stage1 run twice differs'
         return False, 'stages agree'
 
